@@ -343,7 +343,11 @@ func MiniBidiLevelsX(classes []BidiClass, paraLevel int, l1AtEnd bool) []int {
 				validIsolates--
 			}
 			levels[i] = stack[len(stack)-1].level
-			applyOverride(i, BidiWS)
+			// X6a also resets the type of a PDI to L or R under an active override. x/text (the
+			// implementation itemization uses and this reference is compared with) leaves it
+			// neutral; the PDI is invisible, so only the run it is reported in depends on this,
+			// and the convention of x/text is followed, as for the characters removed by X9.
+			types[i] = c
 		case BidiPDF:
 			types[i] = c
 			if !top.isolate && len(stack) >= 2 {
